@@ -5,6 +5,7 @@ SeqOf(Q) == IF Q = {} THEN <<>> ELSE LET x == CHOOSE y \in Q : TRUE IN <<x>> \o 
 SJ(st) == [conds |-> SeqOf(st.conds), disp |-> st.disp, act |-> st.act]
 PJ(p) == [stmts |-> [i \in 1..Len(p.stmts) |-> SJ(p.stmts[i])], default |-> p.default]
 Emit == LET e == Eval(c.pol, c.r) IN
-        PrintT(ToJson([pol |-> PJ(c.pol), r |-> [p |-> c.r.p, ap |-> c.r.ap, cm |-> SeqOf(c.r.cm)],
-                       exp |-> [d |-> e.d, lp |-> e.lp, cm |-> SeqOf(e.cm)]]))
+        PrintT(ToJson([pol |-> PJ(c.pol), r |-> [p |-> c.r.p, ap |-> c.r.ap, cm |-> SeqOf(c.r.cm), med |-> c.r.med],
+                       exp |-> [d |-> e.d, lp |-> e.lp, cm |-> SeqOf(e.cm), med |-> e.med, hops |-> e.hops, first |-> e.first,
+                                nh |-> e.nh]]))
 =============================================================================
